@@ -282,6 +282,7 @@ fn run_generated(ctx: &mut Ctx, rep: &mut Report, base: &mut u64) {
             let file = GenFile::from_spec(spec);
             let f = &file;
             let len = file.bytes.len();
+            let t_file = std::time::Instant::now();
             let nb = nblocks(len);
             let mut whole_ok: Option<bool> = None;
             // --- single cuts, in nb strided blocks
@@ -346,6 +347,9 @@ fn run_generated(ctx: &mut Ctx, rep: &mut Report, base: &mut u64) {
                     }
                 }
                 tally.flush(rep);
+            }
+            if std::env::var_os("VX_IO_TIMING").is_some() {
+                eprintln!("{:8.3}s len={:6} {}", t_file.elapsed().as_secs_f64(), len, spec.label());
             }
             if ctx.out_of_time() {
                 rep.cap(format!("generated files: wall-clock cap after file {}", spec.label()));
